@@ -154,7 +154,8 @@ def streams(tier, rng, P, only=None, cases=None):
                 cs.append(dict(req="run " + hx(src), src=src, show=src[:300], kind="print", exp=out, key="m%d" % i))
             elif k < 0.22:
                 # statements that run again after control has been on later lines: loops and FOR bodies spanning lines, a function defined below its call
-                lead = rng.choice([0, 0, 1, 2]); form = rng.choice(["loop", "for", "func"]); reps = rng.randint(1, 3)
+                lead = rng.choice([0, 0, 1, 2]); form = rng.choice(["loop", "for", "func", "if", "else", "sub", "div", "while"]); reps = rng.randint(1, 3)
+                if form in ("if", "else", "sub", "div"): reps = 1      # blocks that run once but are read by a nested pass of the lexer
                 body = []; nl = rng.randint(1, 3)
                 for li in range(nl + 1):
                     toks = [rng.choice(["c", "d8", "r", "v100"]) for _ in range(rng.randrange(0, 3))]
@@ -162,6 +163,11 @@ def streams(tier, rng, P, only=None, cases=None):
                     body.append(toks)
                 if form == "loop": body[0].insert(0, "[%d" % reps); body[-1].append("]")
                 elif form == "for": body[0].insert(0, "FOR(INT I=0;I<%d;I++){" % reps); body[-1].append("}")
+                elif form == "while": body[0].insert(0, "INT WW=0; WHILE(WW<%d){ WW=WW+1;" % reps); body[-1].append("}")
+                elif form == "if": body[0].insert(0, rng.choice(["IF(1){", "IF(2>1){", "IF(1) {"])); body[-1].append("}")
+                elif form == "else": body[0].insert(0, rng.choice(["IF(0){ c } ELSE {", "IF(0){ c }ELSE{"])); body[-1].append("}")
+                elif form == "sub": body[0].insert(0, rng.choice(["Sub{", "S{", "Sub {"])); body[-1].append("}")
+                elif form == "div": body[0].insert(0, "{"); body[-1].append("}2")
                 else: body = [["FA();"] * reps + ["PRINT(99);"], ["FUNCTION FA(){"]] + body[1:] + [["}"]]
                 lines = [[] for _ in range(lead)] + body
                 once = []
